@@ -100,30 +100,34 @@ def inputTokens (o : Opts) (it : Item) : List Tok :=
         | [] => toks
     toks.map fun (t : Tokenizer.Token) => let (r, b) := toChars t.text; (⟨r, b, t.prefixLength⟩ : Tok)
 
-/-- Filter mode: the records printed, in order (`none` = a match function crashed). -/
-def run (o : Opts) (slabCap : Nat) (query : Str) (lines : List Str) : Option (List Str) :=
+/-- Filter mode: the (item number, record) pairs printed, in order (`none` = a match function crashed). -/
+def runIdx (o : Opts) (slabCap : Nat) (query : Str) (lines : List Str) : Option (List (Nat × Str)) :=
   let (forward, withPos) := dirAndPos o.criteria
   let pat := buildPattern o.cfg o.fuzzy o.v2 o.extended o.caseMode o.normalize forward false query
   let items := buildItems o lines
   let streaming := !o.sort && !o.tac
   let items := if o.tail > 0 ∧ !streaming then lastN o.tail items else items
   if pat.isEmpty ∧ !streaming then
-    some ((if o.tac then items.reverse else items).map (·.orig))
+    some ((if o.tac then items.reverse else items).map fun it => (it.index, it.orig))
   else
     let wp := if streaming then false else withPos
-    let scored : Option (List (Option (R × Str))) := items.mapM fun it =>
+    let scored : Option (List (Option (R × (Nat × Str)))) := items.mapM fun it =>
       match matchItem o.cfg pat (inputTokens o it) wp slabCap with
       | .error _ => none
       | .ok none => some none
       | .ok (some m) =>
-        some (some ((⟨buildPoints o.cfg o.criteria it.text m.offsets m.score, it.index⟩ : R), it.orig))
+        some (some ((⟨buildPoints o.cfg o.criteria it.text m.offsets m.score, it.index⟩ : R), (it.index, it.orig)))
     match scored with
     | none => none
     | some rs =>
       let ms := rs.filterMap id
       let ordered :=
-        if o.sort && pat.sortable then ms.mergeSort (fun (a b : R × Str) => compareRanks64 a.1 b.1 o.tac)
+        if o.sort && pat.sortable then ms.mergeSort (fun (a b : R × (Nat × Str)) => compareRanks64 a.1 b.1 o.tac)
         else if o.tac then ms.reverse else ms
       some (ordered.map (·.2))
+
+/-- Filter mode: the records printed, in order. -/
+def run (o : Opts) (slabCap : Nat) (query : Str) (lines : List Str) : Option (List Str) :=
+  (runIdx o slabCap query lines).map (·.map (·.2))
 
 end Fzf.Filter
